@@ -1350,6 +1350,15 @@ class Interp:
     def ex_Attribute(self, e, scope):
         return self.getattr(self.eval(e.value, scope), e.attr)
 
+    def _stub_gap(self, cls, name):
+        """a missing attribute on an object whose class comes (also) from a STUB of a dependency says nothing about the
+        code under contract: the stub simply does not model it -> undecided, never an AttributeError of the program"""
+        from .stubs import STUB_SOURCES
+
+        for c in cls.mro:
+            if getattr(c, "module", None) in STUB_SOURCES:
+                raise Unsupported(f"stub {c.module}.{c.name} does not model attribute '{name}' (needed on a {cls.name})")
+
     def getattr(self, v, name, default=_MISSING):
         if isinstance(v, Obj):
             if name in v.fields:
@@ -1368,6 +1377,7 @@ class Interp:
                 return ()
             if default is not _MISSING:
                 return default
+            self._stub_gap(v.cls, name)
             self.raise_py("AttributeError", f"'{v.cls.name}' object has no attribute '{name}'")
         if isinstance(v, ClassV):
             a, owner = v.lookup(name)
@@ -1385,6 +1395,7 @@ class Interp:
                 return v.members
             if default is not _MISSING:
                 return default
+            self._stub_gap(v, name)
             self.raise_py("AttributeError", f"type object '{v.name}' has no attribute '{name}'")
         if isinstance(v, ModuleV):
             return self.module_attr(self.load_module(v.name) if not v.loaded and v.name not in self.loading else v, name)
